@@ -355,6 +355,38 @@ class JSFunction:
         return f"[Function: {self.name}]" if self.name else "[Function (anonymous)]"
 
 
+def from_python(value: Any, none: Any = UNDEFINED) -> JSValue:
+    """Convert a value returned by a host (Python) function into a JavaScript value.
+
+    None becomes `none`; lists, tuples and dicts become arrays and objects
+    (recursively, shared and cyclic structures keep their shape); everything
+    else is passed through.
+    """
+    memo: Dict[int, JSValue] = {}
+
+    def convert(v: Any) -> JSValue:
+        if v is None:
+            return none
+        if isinstance(v, (list, tuple)):
+            if id(v) in memo:
+                return memo[id(v)]
+            arr = JSArray()
+            memo[id(v)] = arr
+            arr._elements = [convert(item) for item in v]
+            return arr
+        if isinstance(v, dict):
+            if id(v) in memo:
+                return memo[id(v)]
+            obj = JSObject()
+            memo[id(v)] = obj
+            for key, item in v.items():
+                obj.set(str(key), convert(item))
+            return obj
+        return v
+
+    return convert(value)
+
+
 class JSRegExp(JSObject):
     """JavaScript RegExp object."""
 
